@@ -290,9 +290,50 @@ def ob_kill(command):
     return h
 
 
+def ob_recover():
+    """whatever an interrupted earlier command left of coredata.dat (absent, empty, truncated, intact), the follow-up recovers as long as the recorded command line is there;
+    without it an unreadable coredata.dat is a MesonException that names `meson setup --wipe`, never a Python error"""
+    def h():
+        fs = FS()
+        with Patched(fs):
+            configured_dir(fs)
+            cdstate = choose(4, 'coredata.dat')       # intact | absent | empty | truncated
+            cd = priv('coredata.dat')
+            if cdstate == 1: del fs.files[cd]
+            elif cdstate == 2: fs.files[cd] = ('PICKLE', None, False)
+            elif cdstate == 3: fs.files[cd] = ('PICKLE', fs.files[cd][1], False, 'truncated')
+            has_cmdline = choose(2, 'cmd_line.txt') == 0
+            if not has_cmdline: del fs.files[priv('cmd_line.txt')]
+            leftovers = choose(2, 'leftover temp files') == 1
+            if leftovers:
+                fs.files[priv('coredata.dat~')] = ('PICKLE', None, False, 'truncated'); fs.files[priv('cmd_line.txt~')] = '[opt'
+            follow = options_with(None)
+            try:
+                env = M.environment.Environment(M.src, M.bld, follow)
+                user = options_with(None)
+                M.cmdline.read_cmd_line_file(M.bld, user)
+            except M.ME as e:
+                check(cdstate in (2, 3) and not has_cmdline, 'MesonException only when coredata.dat is unreadable and there is no recorded command line to regenerate from')
+                check('--wipe' in str(e), 'the error names the way out (meson setup --wipe)')
+                cover('unrecoverable'); return
+            except Exception:
+                check(False, 'no Python error escapes while loading the state'); return
+            check(not (cdstate in (2, 3) and not has_cmdline), 'an unreadable coredata.dat without a recorded command line is reported')
+            if cdstate == 0:
+                check(not env.first_invocation and env.coredata.optstore.get_value_for(M.WL) == '1', 'an intact coredata.dat is used as it is'); cover('loaded')
+            else:
+                check(env.first_invocation, 'configuration is regenerated from scratch')
+                # an ABSENT coredata.dat means 'not configured yet': the user gives the options again and cmd_line.txt is not consulted by Environment
+                if has_cmdline and cdstate != 1: check(follow.cmd_line_options.get(M.WL) == '1', 'with the recorded command line options')
+                cover('regenerated')
+    return h
+
+
 def obligations(tier):
     out = []
     for c in ('configure', 'reconfigure', 'first-setup'):
         out.append(Obligation('kill[%s]' % c, ob_kill(c), dict(command=c, kill_step='symbolic 1..60 (every step of the command)', interrupted_write='every prefix'),
                               labels=('killed', 'completed', 'loaded') + (('regenerated',) if c == 'first-setup' else ()), optional_labels=('regenerated',), max_paths=200000, path_timeout=120))
+    out.append(Obligation('recover', ob_recover(), dict(coredata_dat='intact | absent | empty | truncated', cmd_line_txt='present | absent', leftover_temp_files='both'),
+                          labels=('loaded', 'regenerated', 'unrecoverable')))
     return out
